@@ -112,7 +112,10 @@ func (s *sim) stmt(st *lstmt) string {
 	}
 	if st.kind == "dispose" {
 		for _, b := range s.blocks {
-			if _, ok := b[k]; ok {
+			if c, ok := b[k]; ok {
+				if c.pseudo {
+					return "E11006"
+				}
 				delete(b, k)
 				return "ok"
 			}
@@ -122,6 +125,9 @@ func (s *sim) stmt(st *lstmt) string {
 	c := s.resolve(k)
 	if c == nil {
 		return "E11002"
+	}
+	if c.pseudo && (st.kind == "open" || st.kind == "close") {
+		return "E11006"
 	}
 	switch st.kind {
 	case "open":
@@ -675,6 +681,9 @@ func (h *hist) finishProgram(kind string, s *sim, got []string, name string, bod
 			exp = want[d]
 		}
 		ln := "block_scoping"
+		if kind == "agg" {
+			ln = "pseudo_cursor"
+		}
 		if kind == "loop" {
 			switch {
 			case exp == "E11002":
@@ -706,4 +715,184 @@ func (h *hist) finishProgram(kind string, s *sim, got []string, name string, bod
 	for k, c := range top {
 		h.curs[k] = c
 	}
+}
+
+// ---------- the number of variables ----------
+
+func varList(n int) string { return strings.Join([]string{"@a", "@b", "@e"}[:n], ", ") }
+
+// stepFetchInto: FETCH with a number of variables that differs from the cursor's columns.  The pointer
+// moves as for any FETCH; the error (11007) is raised only when a row came back.
+func (h *hist) stepFetchInto() {
+	g := h.g
+	name := h.pickName(true)
+	c, exists := h.curs[key(name)]
+	if exists && c.pendingOvf != nil {
+		h.stepStatus(-1)
+		return
+	}
+	cols := 2
+	if exists {
+		cols = c.cols()
+	}
+	nvars := 1 + g.Intn(3)
+	for nvars == cols {
+		nvars = 1 + g.Intn(3)
+	}
+	pos := []string{"next", "next", "prior", "first", "last", "abs", "rel"}[g.Intn(7)]
+	num := int64(g.Intn(7) - 3)
+	opPos, sqlPos := pos, strings.ToUpper(pos)
+	switch pos {
+	case "abs":
+		opPos, sqlPos = fmt.Sprintf("abs %d", num), "ABSOLUTE "+spellInt(g, num)
+	case "rel":
+		opPos, sqlPos = fmt.Sprintf("rel %d", num), "RELATIVE "+spellInt(g, num)
+	}
+	err := h.exec(fmt.Sprintf("FETCH %s %s INTO %s;", sqlPos, name, varList(nvars)))
+	impl := "none"
+	if err != nil {
+		impl = errTok(err)
+	}
+	h.o.Case(fmt.Sprintf("c16.fetchinto %s %d %s", name, nvars, opPos), impl)
+	h.o.Count("op:fetchinto")
+	want, st := "", "undeclared"
+	switch {
+	case !exists:
+		want = "E11002"
+	case !c.open:
+		want, st = "E11003", "closed"
+	default:
+		st = "open"
+		before := c.ptr
+		r := specFetch(c, pos, num)
+		want = "none"
+		if strings.HasPrefix(r, "row") {
+			want = "E11007"
+		}
+		if after, ok := h.realPointer(name); ok && int64(after) != c.ptr && impl == want {
+			h.law("fetch_length_mismatch", map[string]interface{}{"name": name, "fetch": opPos, "variables": nvars, "pointer_before": before,
+				"expected_pointer_after": c.ptr, "implementation_pointer_after": after})
+			h.aborted = true
+		}
+	}
+	if impl != want {
+		h.law("fetch_length_mismatch", map[string]interface{}{"name": name, "fetch": opPos, "variables": nvars, "columns": cols, "expected": want, "got": impl})
+		h.aborted = true
+	}
+	h.o.NonTrivial(fmt.Sprintf("fetchinto|%s|%s|cols%d|vars%d|%s", st, pos, cols, nvars, want))
+}
+
+// stepWhileInto: WHILE with the wrong number of variables stops at the first row it fetches
+func (h *hist) stepWhileInto() {
+	g := h.g
+	name := h.pickName(true)
+	c, exists := h.curs[key(name)]
+	if exists && c.pendingOvf != nil {
+		h.stepStatus(-1)
+		return
+	}
+	cols := 2
+	if exists {
+		cols = c.cols()
+	}
+	nvars := 1 + g.Intn(3)
+	for nvars == cols {
+		nvars = 1 + g.Intn(3)
+	}
+	decl := ""
+	if g.Intn(2) == 0 {
+		decl = "VAR "
+	}
+	vars := varList(nvars)
+	if decl != "" {
+		vars = strings.Join([]string{"@x", "@y", "@z"}[:nvars], ", ")
+	}
+	first := strings.Split(vars, ", ")[0]
+	err := h.exec(fmt.Sprintf("WHILE %s%s IN %s DO INSERT INTO lg VALUES (%s, NULL); END WHILE;", decl, vars, name, first))
+	seen := h.readLog(1)
+	impl := fmt.Sprintf("rows %d", len(seen)) + joinPrefixed(seen)
+	if err != nil {
+		impl = errTok(err)
+	}
+	h.o.Case(fmt.Sprintf("c16.whileinto %s %d", name, nvars), impl)
+	h.o.Count("op:whileinto")
+	want, st := "", "undeclared"
+	switch {
+	case !exists:
+		want = "E11002"
+	case !c.open:
+		want, st = "E11003", "closed"
+	default:
+		st = "open"
+		r := specFetch(c, "next", 0)
+		want = "rows 0"
+		if strings.HasPrefix(r, "row") {
+			want = "E11007"
+		}
+		if after, ok := h.realPointer(name); ok && int64(after) != c.ptr && impl == want {
+			h.law("fetch_length_mismatch", map[string]interface{}{"name": name, "op": "while", "variables": nvars,
+				"expected_pointer_after": c.ptr, "implementation_pointer_after": after})
+			h.aborted = true
+		}
+	}
+	if impl != want {
+		h.law("fetch_length_mismatch", map[string]interface{}{"name": name, "op": "while", "variables": nvars, "columns": cols, "expected": want, "got": impl})
+		h.aborted = true
+	}
+	h.o.NonTrivial(fmt.Sprintf("whileinto|%s|cols%d|vars%d|%s", st, cols, nvars, want))
+}
+
+// ---------- pseudo cursors ----------
+
+// stepAgg: one call of a user-defined aggregate over the ids of t; its body works on the pseudo cursor
+// `pc` (and on the caller's cursors, which it sees).  OPEN / CLOSE / DISPOSE of pc must be error 11006.
+func (h *hist) stepAgg() bool {
+	if !h.valid || len(h.t) == 0 {
+		return false
+	}
+	g := h.g
+	values := make([]string, len(h.t))
+	for i, r := range h.t {
+		values[i] = r.idTok
+	}
+	var s *sim
+	var l []*lstmt
+	for try := 0; ; try++ {
+		if try == 25 {
+			return false
+		}
+		l = nil
+		for j, m := 0, 2+g.Intn(6); j < m; j++ {
+			st := h.genStmt("pc")
+			// mostly reading statements: a refused OPEN / CLOSE / DISPOSE ends the call
+			if (st.kind == "declare" || st.kind == "dispose" || st.kind == "close" || st.kind == "open") && g.Intn(4) > 0 {
+				st.kind = "fetch"
+				st.pos = []string{"next", "next", "prior", "first", "last", "abs", "rel"}[g.Intn(7)]
+				st.num = int64(g.Intn(5) - 2)
+			}
+			l = append(l, st)
+		}
+		s = h.newSim()
+		s.push()
+		s.blocks[0]["PC"] = &cursor{qkind: qOneCol, open: true, snap: values, ptr: -1, pseudo: true}
+		s.stmts(l)
+		s.pop()
+		if !s.bad {
+			break
+		}
+	}
+	h.fnCount++
+	fn := fmt.Sprintf("lf%d", h.fnCount)
+	h.cntBefore = h.cnt()
+	err := h.exec(fmt.Sprintf("DECLARE %s AGGREGATE (pc) AS BEGIN %s RETURN NULL; END; SELECT %s(id) FROM t;", fn, stmtsSQL(g, l), fn))
+	got := h.readTrace()
+	if err != nil {
+		got = append(got, errTok(err))
+	}
+	if !h.hung {
+		_, _ = h.p.Exec(fmt.Sprintf("DISPOSE FUNCTION %s;", fn))
+	}
+	h.o.Case(fmt.Sprintf("c16.agg pc %d", len(values))+joinPrefixed(values)+" ;; "+stmtsTokens(l, ","), strings.Join(got, " | "))
+	h.finishProgram("agg", s, got, "pc", []*litem{{stmts: l}})
+	return true
 }
